@@ -27,6 +27,10 @@ P = {
          "with the real functions on every key, near key, edge value and random int32; the implementation is swept over every rune in [-70000, 0x110000+70000]."),
  "C04": ("proof", "4.C04", "Coq refinement proof (Impl.Compare = lexicographic order of folded keys) + order-law theorems + correspondence",
          "compare_refines for both package shapes on all byte strings, antisymmetry, transitivity, zero-iff-EqualFold, first-difference and ASCII order proved; order laws also evaluated on the implementation."),
+ "C05": ("other", "4.C05", "Coq proof over a regenerated effect summary (call graph + allocation-capable constructs with compiler escape verdicts) + malloc measurement",
+         "PARTIAL by nature: zero allocation is a property of what the gc compiler emits. Proved: no trace of the over-approximating effect semantics of the regenerated summary contains an allocating event for any of the 46 exported functions; "
+         "views proved for Spec and checked by pointer on every correspondence case. Assumed and measured: that the summary over-approximates the compiled code (translator T3, allow-list of leaf functions, escape verdicts honoured); "
+         "mallocs per call over 108 shapes (0 B .. 70 KB quick / 300 KB thorough, long needles, ill-formed, each fallback strategy) x 46 functions x 3 CPU-feature configurations."),
  "C06": ("proof", "4.C06", "Coq proof (Ok-totality of Impl where modelled, range theorems for Spec) + panic/hang/range observation on ill-formed corpus",
          "Totality (no Panic, no OutOfFuel) is proved for the functions that have an Impl model (Compare, EqualFold, ...); for the others the theorem is the range of the Spec value and the absence of panics/hangs is observed "
          "(recover, watchdog) on a dense ill-formed corpus incl. exhaustive small alphabets and uniform random bytes. Hardware-level over-reads are C13's subject."),
@@ -47,6 +51,9 @@ P = {
  "C15": ("proof", "4.C15", "Coq proof (all Spec theorems are over utf8.DecodeRune segmentation, no well-formedness hypothesis) + ill-formed corpus", "Every Spec characterisation holds for arbitrary bytes; the decoder model is validated against unicode/utf8; all 23 functions run on a dense ill-formed corpus and exhaustive small alphabets."),
  "C16": ("proof", "4.C16", "Coq proof (key invariance under re-casing) + relation evaluated on the implementation", "All results are functions of the folded key; offsets are the same code-point index. The relation is also evaluated directly on both packages with width-changing orbit members."),
  "C17": ("proof", "4.C17", "Coq proof of each relation for Spec + relations evaluated on the implementation", "Every listed relation proved for Spec on all byte strings except IndexRune=Index(string(r)) and IndexByte=Index(string(c)), which are evaluated on the implementation only."),
+ "C18": ("other", "4.C18", "Coq proof over the regenerated effect summary (no store to non-local storage) and the assembly store summary + abstract interleaving theorem + -race run and argument snapshots",
+         "PARTIAL by nature: schedules are quantified over an abstract shared-memory machine, not the Go memory model. Proved: no trace of an exported function contains a store outside function-local storage or a call outside the read-only allow-list; "
+         "the assembly stores only through the result-slot pointer; read-only threads cannot race. Dynamic tie: argument snapshots (incl. spare capacity) on every correspondence call, repeated-call determinism, 64 goroutines x all functions over shared backing arrays under the race detector."),
  "C19": ("proof", "4.C19", "Coq proof (incl. optimality of greedy counting) + relation evaluated on the implementation", "All eight embedding statements proved for Spec with x, s well-formed."),
  "C20": ("proof", "4.C20", "Coq proof for the ASCII class against byte-exact models of the namesakes + direct comparison with strings/bytes",
          "ASCII class proved for 11 functions; the other namesakes and the caseless class are decided by direct comparison of both packages with the real strings/bytes functions (partial, see DESIGN 4.C20)."),
